@@ -63,30 +63,50 @@ def run(ctx):
     t = src(sp)
     pops = [a for a in acc if a.method == "submit_pending_jobs" and a.field == "pending" and "pop(" in a.text]
     r2.check(bool(pops) and all("_lock" in a.locks for a in pops), f"{m.rel}:JobArrayer.submit_pending_jobs:pop", "the group is not removed from `pending` (pop) under the lock: a job could be handed off twice", m.rel, sp.lineno)
-    chain = next((n for n in sp.body if isinstance(n, ast.If)), None)
-    if chain is None:
-        raise AnalysisError("submit_pending_jobs: size branch not found", "JobArrayer.submit_pending_jobs")
-    t1 = src(chain.test)
-    r2.check(t1 == "len(jobs) > self.max_array_size", f"{m.rel}:JobArrayer.submit_pending_jobs:over-max-test", f"first size test is `{t1}`, expected `len(jobs) > self.max_array_size`", m.rel, chain.lineno)
-    b1 = " ; ".join(src(s) for s in chain.body)
-    ok = "remainder = jobs[self.max_array_size:]" in b1 and "jobs = jobs[:self.max_array_size]" in b1 and "self._submit_jobs(jobs)" in b1 and "self.pending[descr].extend(remainder)" in b1
-    order_ok = b1.find("remainder = jobs[self.max_array_size:]") < b1.find("jobs = jobs[:self.max_array_size]") < b1.find("self._submit_jobs(jobs)")
-    r2.check(ok and order_ok, f"{m.rel}:JobArrayer.submit_pending_jobs:over-max-arm", "the over-max arm does not submit jobs[:max] and re-insert jobs[max:] (complementary slices with the same bound)", m.rel, chain.lineno)
-    reins = [a for a in acc if a.method == "submit_pending_jobs" and a.field == "pending" and "extend(remainder)" in a.text]
-    r2.check(bool(reins) and all("_lock" in a.locks for a in reins), f"{m.rel}:JobArrayer.submit_pending_jobs:reinsert", "the remainder is not re-inserted under the lock", m.rel, chain.lineno)
-    nxt = chain.orelse[0] if len(chain.orelse) == 1 and isinstance(chain.orelse[0], ast.If) else None
-    ok = nxt is not None and src(nxt.test) == "len(jobs) < self.min_array_size"
-    if ok:
-        body = nxt.body
-        ok = len(body) == 1 and isinstance(body[0], ast.For) and src(body[0].iter) == "jobs" and [src(s) for s in body[0].body] == [f"self._submit_jobs([{src(body[0].target)}])"]
-        els = [src(s) for s in nxt.orelse]
-        ok = ok and els == ["self._submit_jobs(jobs)"]
-    r2.check(bool(ok), f"{m.rel}:JobArrayer.submit_pending_jobs:small-and-batch-arms", "groups below the minimum are not submitted as singletons, or the remaining case is not one batch of all popped jobs", m.rel, chain.lineno)
-    last = sp.body[-1]
-    dec_ok = isinstance(last, ast.AugAssign) or (isinstance(last, ast.With) and any(isinstance(b, ast.AugAssign) for b in last.body))
-    dec = last if isinstance(last, ast.AugAssign) else next((b for b in getattr(last, "body", []) if isinstance(b, ast.AugAssign)), None)
-    ok = dec is not None and src(dec.target) == "self.num_pending" and isinstance(dec.op, ast.Sub) and src(dec.value) == "len(jobs)"
-    r2.check(ok, f"{m.rel}:JobArrayer.submit_pending_jobs:count", "the pending count is not decremented by exactly the number of jobs handed off on every branch", m.rel, sp.lineno)
+    # conservation over symbolic list sizes (sa/conserve.py): per path, items taken out of `pending` are handed off exactly once or put back,
+    # the counter moves exactly with the queue, and every hand-off batch is of size max, of size 1, or within [min, max]
+    from ..conserve import Conservation, f_add, f_eq, f_str
+
+    MAX, MIN = {"self.max_array_size": 1}, {"self.min_array_size": 1}
+
+    def known(facts, form, rel):
+        return any(f_eq(f, form) and r == rel for f, r in facts)
+
+    for q, incoming in (("JobArrayer.submit_pending_jobs", 0), ("JobArrayer.add_job", 1)):
+        fn = m.func(q)
+        paths = Conservation(fn, "pending", "num_pending", "_submit_jobs").run()
+        if not paths:
+            raise AnalysisError(f"{q}: no path found", q)
+        for p in paths:
+            where = " -> ".join(p.trace[:6])
+            r2.check(
+                f_eq(f_add(p.taken, {1: incoming} if incoming else {}), f_add(p.back, p.off)),
+                f"{m.rel}:{q}:conservation",
+                f"on the path [{where}] {incoming} job(s) arrive, {f_str(p.taken)} are removed from `pending`, {f_str(p.off)} handed to _submit_jobs and {f_str(p.back)} put back: a job is lost or handed off twice",
+                m.rel,
+                fn.lineno,
+            )
+            r2.check(
+                f_eq(p.dq, p.dc),
+                f"{m.rel}:{q}:count",
+                f"on the path [{where}] the queue changes by {f_str(p.dq)} job(s) but num_pending by {f_str(p.dc)}: the counter the executors' monitor loops wait on drifts from the queue",
+                m.rel,
+                fn.lineno,
+            )
+            for line, d, facts in p.handoffs:
+                if q.endswith("add_job"):
+                    continue  # unbatched submission of script jobs / arrays disabled
+                le_max = d is not None and (f_eq(d, MAX) or f_eq(d, {1: 1}) or known(facts, f_add(d, MAX, -1), "<=0"))
+                ge_min = d is not None and (f_eq(d, MAX) or f_eq(d, {1: 1}) or known(facts, f_add(MIN, d, -1), "<=0"))
+                r2.check(
+                    le_max and ge_min,
+                    f"{m.rel}:{q}:batch-size",
+                    f"_submit_jobs at line {line} receives {f_str(d)} job(s); on the path [{where}] this is not provably the maximum array size, a single job, or between the minimum and the maximum",
+                    m.rel,
+                    line,
+                )
+    reins = [a for a in acc if a.method == "submit_pending_jobs" and a.field == "pending" and ("extend(" in a.text or "append(" in a.text or "+=" in a.text)]
+    r2.check(bool(reins) and all("_lock" in a.locks for a in reins), f"{m.rel}:JobArrayer.submit_pending_jobs:reinsert", "the remainder is not re-inserted under the lock", m.rel, sp.lineno)
     init = m.func("JobArrayer.__init__")
     ti = src(init)
     ok = "if self.max_array_size < self.min_array_size:" in ti and "raise ValueError" in ti and "self.max_array_size = min(max_array_size, MAX_ARRAY_SIZE)" in ti
